@@ -60,6 +60,9 @@ type Chaos struct {
 	OnReq   func(key int16, ordinal int)
 	Dropped int
 	stall   map[int16][]time.Duration // key -> delays applied to the responses of the next requests
+	// Latency is added to every response. A zero-latency network lets a client loop that re-issues a request as soon as
+	// it is answered run forever at one instant of virtual time (nothing ever blocks durably, so timers never fire).
+	Latency time.Duration
 }
 
 func NewChaos() *Chaos {
@@ -247,6 +250,9 @@ func (cc *chaosConn) Write(p []byte) (int, error) {
 	}
 	cc.mu.Unlock()
 	if len(out) > 0 {
+		if cc.c.Latency > 0 {
+			time.Sleep(cc.c.Latency)
+		}
 		if _, err := cc.Conn.Write(out); err != nil {
 			return 0, err
 		}
